@@ -488,6 +488,10 @@ def build_middlewares(sc: Scenario) -> List[TaskiqMiddleware]:
     return out
 
 
+UNKNOWN_NAMES = ["no_such_task", "other.module:t_async", "no_such_task", "T_ASYNC", "t_asyn", "billing.jobs:t_sync", "no_such_task",
+                 "t_async:t_async", ":t_async", "t_async:", "t_async ", "mon.worker_harness:t_async", "t_sync.t_sync"]
+
+
 def _markers(message: Any) -> List[str]:
     return sorted(k for k in message.labels if k.startswith("mk_"))
 
@@ -852,7 +856,10 @@ def build_payload(sc: Scenario, broker: AsyncBroker, m: Dict[str, Any], tok: str
         labels["timeout"] = str(m["timeout"]) if m.get("timeout_str") else m["timeout"]
     if m.get("timeout_raw") is not None:
         labels["timeout"] = m["timeout_raw"]
-    tname = "no_such_task" if kind == "unknown" else m.get("task", "t_async")
+    tname = m.get("task", "t_async")
+    if kind == "unknown":
+        # names nobody registered - some of them close to a registered one (other module, other case, a prefix)
+        tname = UNKNOWN_NAMES[m.get("variant", 0) % len(UNKNOWN_NAMES)]
     if m.get("raw_labels"):
         # a message from a producer that does not send labels_types (hand-built / older client)
         from taskiq.message import TaskiqMessage
@@ -917,7 +924,16 @@ def run_worker(spec: Dict[str, Any], real: bool = False) -> RunResult:
             )
         else:
             broker = ScriptedBroker(sc)
-        broker.result_backend = RecordingBackend(sc)
+        bk_cls: Any = RecordingBackend
+        if spec.get("backend", {}).get("kind") == "dummy_sub":
+            # an application backend written as a subclass of the bundled DummyResultBackend that overrides the writes
+            from taskiq.result_backends.dummy import DummyResultBackend
+
+            bk_cls = type("RecordingAuditBackend", (RecordingBackend, DummyResultBackend), {})
+        backend_obj = bk_cls(sc)
+        late_backend = bool(spec.get("backend", {}).get("late")) and not inmem and spec.get("via") != "api"
+        if not late_backend:
+            broker.result_backend = backend_obj
         tasks = dict(DEFAULT_TASKS)
         tasks.update(spec.get("tasks", {}))
         spec_t = dict(spec)
@@ -1142,6 +1158,8 @@ def run_worker(spec: Dict[str, Any], real: bool = False) -> RunResult:
         )
         receiver.sc = sc
         rr.receiver = receiver
+        if late_backend:
+            broker.with_result_backend(backend_obj)  # configured after the receiver object exists
         finish = asyncio.Event()
         if spec.get("stop_at") is not None:
             def _stop() -> None:
